@@ -129,7 +129,7 @@ def exChunkDown : Chunk :=
 
 def exState : State :=
   { chunks := [exChunk, exChunk2], cur := .chunk 0, minAlign := 8, frames := [], live := [], nextId := 0,
-    userCps := [], prepared := none, resps := [.granted 0x40000 2000], reqs := [], dropped := false }
+    userCps := [], prepared := none, resps := [.granted 0x40000 4000], reqs := [], dropped := false }
 
 def exStateDown : State := { exState with chunks := [exChunkDown] }
 
